@@ -29,6 +29,7 @@ type ValidCase struct {
 	CfgLL  []string            `json:"cfgll"`
 	SLL    []string            `json:"sll"`
 	MM     []string            `json:"mm"`
+	ULL    []string            `json:"ull"`
 	ML     []map[string]string `json:"ml"`
 	C2     []string            `json:"c2"`
 	Valid  bool                `json:"valid"`
@@ -97,6 +98,9 @@ func runValid(c *ValidCase, pkg *reg.Pkg, res *rep.Result) {
 	if len(c.MM) > 0 {
 		t.LL[fp("v", "mm")] = c.MM
 	}
+	if len(c.ULL) > 0 {
+		t.LL[fp("v", "ull")] = c.ULL
+	}
 	if len(c.SLL) > 0 {
 		conts(t, "vfe/v/st")
 		t.LL[fp("v", "st", "sll")] = c.SLL
@@ -142,6 +146,8 @@ func runValid(c *ValidCase, pkg *reg.Pkg, res *rep.Result) {
 		switch {
 		case len(c.C2) > 1:
 			fault = "two-cases"
+		case len(c.ULL) > 2:
+			fault = "duplicate-config-leaflist"
 		case len(c.MM) == 1:
 			fault = "below-min-elements"
 		case len(c.MM) == 2 && c.MM[0] == c.MM[1]:
@@ -362,8 +368,32 @@ func runLref(c *LrefCase, pkg *reg.Pkg, res *rep.Result) {
 	if (err != nil) != c.Dangling {
 		res.Violate("C30", sig("leafref"), fmt.Sprintf("Validate err=%v, but dangling=%v for %v", err, c.Dangling, abs.Project(root, pkg).LeafLines()), &cc)
 	}
-	if err, _ := validate(root, &ytypes.LeafrefOptions{IgnoreMissingData: true}); err != nil {
-		res.Violate("C30", sig("ignore-missing-data"), fmt.Sprintf("with IgnoreMissingData Validate still reports %v for %v", err, abs.Project(root, pkg).LeafLines()), &cc)
+	for _, lg := range []bool{false, true} {
+		if err, _ := validate(root, &ytypes.LeafrefOptions{IgnoreMissingData: true, Log: lg}); err != nil {
+			res.Violate("C30", sig("ignore-missing-data"), fmt.Sprintf("with IgnoreMissingData (Log=%v) Validate still reports %v for %v", lg, err, abs.Project(root, pkg).LeafLines()), &cc)
+		}
+	}
+	// a target entry whose key leaf is unset (a partially populated tree): with IgnoreMissingData
+	// the leafref pass itself must stay silent
+	if len(c.Tgt) > 0 && (c.Abs != "-" || c.Rel != "-" || len(c.Lr) > 0) {
+		if sch, err := rootSchema(pkg); err == nil {
+			par, perr := abs.Ensure(reflect.ValueOf(root), abs.Path{"vfe", "r", "tgt", "=str:" + c.Tgt[0]}, pkg)
+			if perr == nil {
+				if f, ok := abs.FieldByStep(par.Elem(), "name"); ok {
+					f.Set(reflect.Zero(f.Type()))
+					for _, lg := range []bool{false, true} {
+						errs, pan := guardErrs(func() []error {
+							return []error(ytypes.ValidateLeafRefData(sch, root, &ytypes.LeafrefOptions{IgnoreMissingData: true, Log: lg}))
+						})
+						if pan != "" {
+							res.Violate("C20", sig("panic"), "ValidateLeafRefData panicked: "+firstLine(pan), &cc)
+						} else if len(errs) > 0 {
+							res.Violate("C30", sig("ignore-missing-data-partial"), fmt.Sprintf("with IgnoreMissingData (Log=%v) and a target entry without its key leaf ValidateLeafRefData reports %v", lg, errs), &cc)
+						}
+					}
+				}
+			}
+		}
 	}
 }
 
@@ -440,4 +470,13 @@ func featCmd(args []string) *rep.Result {
 		res.InfraErr("feat: no cases in %s", c.in)
 	}
 	return res
+}
+
+func guardErrs(f func() []error) (errs []error, panicked string) {
+	defer func() {
+		if r := recover(); r != nil {
+			panicked = fmt.Sprint(r)
+		}
+	}()
+	return f(), ""
 }
